@@ -92,6 +92,11 @@ def flatten_sum(expr):
     sums themselves: cos(x + (pi + y)) would treat (pi + y) as the period pi
     and return -cos(x), silently dropping y.
     """
+    if isinstance(expr, (sp.Mul, sp.Pow)):
+        # The sum can also be a factor, e.g. in cos(-(x + (pi + y)))
+        if not any(arg.has(sp.Add) for arg in expr.args):
+            return expr
+        return expr.func(*[flatten_sum(arg) for arg in expr.args], evaluate=False)
     if not isinstance(expr, sp.Add):
         return expr
     terms = []
